@@ -245,6 +245,8 @@ def check_named(case):
         tags.add("weighted")
         if max(case["w"]) < 1e-6:
             tags.add("tiny_weights")
+        if max(case["w"]) / min(case["w"]) > 1e100:
+            tags.add("weights_scale_range>1e100")
         if 1 in sizes:
             tags.add("weighted_singleton_group")
     if 1 in sizes:
@@ -500,6 +502,10 @@ def _dataset(draw, max_n=14):
                        st.lists(gen.real_weights, min_size=n, max_size=n)))
     if w is not None and draw(st.integers(0, 5)) == 0:
         w = [x * 1e-10 for x in w]  # positive weights on a tiny scale (e.g. normalised densities)
+    elif w is not None and draw(st.integers(0, 5)) == 0:
+        # weights on very different scales from group to group (1e-150 .. 1e150): within a group only ratios matter
+        expo = {lab: draw(st.sampled_from([-150, 0, 150, 200, -122])) for lab in labels}
+        w = [x * 10.0 ** expo[gi] for x, gi in zip(w, groups)]
     return {
         "y_true": yt, "y_pred": yp, "groups": groups, "w": w,
         "kind": draw(st.sampled_from(["list", "ndarray", "series"])),
